@@ -207,7 +207,7 @@ class Strings(Contract):
 # ==========================================================================================================
 from fxpv import core as _core
 from fxpv.core import SNum as _SNum
-from specs.core import M, B, And, eq, pat
+from specs.core import M, B, And, Or, Not, eq, pat
 
 
 def _sym_bits(c, n):
@@ -254,6 +254,35 @@ def _same_string(got, want_items):
     return got == ''.join(want_items)
 
 
+def _numeral_ok(got, c, base):
+    """`got` is the sign-magnitude numeral of the integer c in `base`: optional '-', digits of |c| without a leading zero
+    ('0' for zero), digit values summing to c"""
+    from fxpv import strs
+    items = strs._items_of(got) if isinstance(got, strs.SStr) else list(got)
+    neg = bool(items) and items[0] == '-'
+    if neg:
+        items = items[1:]
+    if not items:
+        return False
+    vals = []
+    for it in items:
+        if isinstance(it, str):
+            i = '0123456789ABCDEF'.find(it)
+            if i < 0 or i >= base:
+                return False
+            vals.append(i)
+        else:
+            if it.base != base or not it.upper:
+                return False
+            vals.append(M(_SNum(it.t)))
+    total = 0
+    for v in vals:
+        total = total * base + v
+    cm = M(c)
+    lead = vals[0]
+    return And(eq(total, -cm if neg else cm), Or(len(vals) == 1, Not(eq(lead, 0))), Not(And(neg, eq(total, 0))))
+
+
 def _flat_strs(r):
     """the strings of a (nested) list / array of strings, in logical (row-major) order"""
     if isinstance(r, str):
@@ -273,7 +302,7 @@ class StringsProof(Contract):
     layer = 5
     uses = ('utils:wrap', 'utils:clip', 'objects:Fxp._get_conv_factor', 'objects:Fxp._round', 'objects:Fxp._overflow_action')
     props = {'*': ['C11'], 'render_bin': ['C11', 'C18'], 'render_hex': ['C11', 'C18'], 'parse_raw_bin': ['C11', 'C18'], 'parse_raw_hex': ['C11', 'C18']}
-    conditional_clauses = ('parse_value_bin', 'parse_value_hex', 'parse_from_bin', 'render_bin_dot')
+    conditional_clauses = ('parse_value_bin', 'parse_value_hex', 'parse_from_bin', 'render_bin_dot', 'render_base2', 'render_base16', 'render_shape')
 
     def configs(self, tier):
         words = (2, 3, 4, 8, 16, 33, 64) if tier == 'quick' else (2, 3, 4, 5, 7, 8, 9, 12, 16, 31, 32, 33, 53, 63, 64, 65, 128)
@@ -300,6 +329,8 @@ class StringsProof(Contract):
         if len(cfg.get('shape', ())) == 2:
             return {'bin2': _flat_strs(x.bin()), 'hex2': _flat_strs(x.hex()), 'bin_pref2': _flat_strs(x.bin(prefix='0b'))}
         o = {'bin': x.bin(), 'bin_dot': x.bin(frac_dot=True), 'bin_pref': x.bin(prefix='0b'), 'hex': x.hex()}
+        if n <= 16 and not cfg.get('shape'):
+            o['base2'] = x.base_repr(2); o['base16'] = x.base_repr(16)
         o['raw_bin'] = P.Fxp(o['bin_pref'], s, n, f, raw=True).val
         o['raw_hex'] = P.Fxp(o['hex'], s, n, f, raw=True).val
         z = P.Fxp(0.0, s, n, f); z.from_bin(o['bin'], raw=True)
@@ -346,6 +377,9 @@ class StringsProof(Contract):
                'render_bin_dot': _same_string(obs['bin_dot'], _with_point(bits, n, f)),
                'render_bin_prefix': _same_string(obs['bin_pref'], ['0', 'b'] + bits),
                'render_hex': _same_string(obs['hex'], ['0', 'x'] + _sym_hex(c, n))}
+        if 'base2' in obs:
+            out['render_base2'] = _numeral_ok(obs['base2'], c, 2)
+            out['render_base16'] = _numeral_ok(obs['base16'], c, 16)
         cm = M(c)
         one = lambda k: M(elems(obs[k])[0])
         out['parse_raw_bin'] = eq(one('raw_bin'), cm)
